@@ -204,6 +204,8 @@ def front_end_jobs(tier, harness):
                 return
             if not is_closed(orig):
                 ctx.feature("front-end-graph-not-closed")  # outside the domain (DESIGN section 9)
+                if getattr(harness, "wants_unclosed", False):
+                    harness(E, ctx, aux, dict(desc, unclosed=True))
                 return
             ctx.feature(f"{kind}-graph-blocks:{min(len(orig) // 5 * 5, 30)}+")
             harness(E, ctx, aux, desc)
@@ -227,6 +229,8 @@ def front_end_jobs(tier, harness):
                      {"space": "graphs of AST2SCFG over S2-armloop (a loop with guarded terminators that lives in / ends one arm of a branch)"}))
         js.append(mk("bytecode-derived-S2-loop-in-branch-arm", lambda ch: s2.ArmLoopGen(ch), 3, "bytecode",
                      {"space": "graphs of ByteFlow over compiled S2-armloop"}))
+        js.append(mk("source-derived-S2-dead-compound-statements", lambda ch: s2.DeadCodeGen(ch), 1, "source",
+                     {"space": "graphs of AST2SCFG over S2-deadcode (loops / ifs behind a terminator)"}))
         js.append(mk("source-derived-S2-loop-in-nested-branch-arm", lambda ch: s2.ArmLoopGen(ch, nested=True), 3, "source",
                      {"space": "graphs of AST2SCFG over S2-armloop nested in the arm of an enclosing if"}))
         js.append(mk("source-derived-S2-multi-exit-loop-then-branching-code", lambda ch: s2.SeqLoopGen(ch), 3, "source",
@@ -244,6 +248,8 @@ def front_end_jobs(tier, harness):
                      {"space": "graphs of AST2SCFG over S2-armloop"}))
         js.append(mk("bytecode-derived-S2-loop-in-branch-arm", lambda ch: s2.ArmLoopGen(ch), 3, "bytecode",
                      {"space": "graphs of ByteFlow over compiled S2-armloop"}))
+        js.append(mk("source-derived-S2-dead-compound-statements", lambda ch: s2.DeadCodeGen(ch), 1, "source",
+                     {"space": "graphs of AST2SCFG over S2-deadcode (loops / ifs behind a terminator)"}))
         js.append(mk("source-derived-S2-loop-in-nested-branch-arm", lambda ch: s2.ArmLoopGen(ch, nested=True), 3, "source",
                      {"space": "graphs of AST2SCFG over S2-armloop nested in the arm of an enclosing if"}))
         js.append(mk("source-derived-S2-multi-exit-loop-then-branching-code", lambda ch: s2.SeqLoopGen(ch), 3, "source",
